@@ -40,8 +40,8 @@ def settings_roundtrip(ctx, rng, with_codes=False):
         want = {}
         for dec in protocols:
             en = rng.random() < 0.7
-            tol = rng.choice([5, 10, 20, 15, 12.5, 7.25])
-            ftol = rng.choice([1, 2, 3, 2.5, 0.5])
+            tol = rng.choice([5, 10, 20, 15, 12.5, 7.25, 0, 100, 1e-05, 2.5e-07, 1e+16, 0.0001, 33.333333333333336])  # incl. exponent forms
+            ftol = rng.choice([1, 2, 3, 2.5, 0.5, 0, 1e-05, 1.5e+20, 0.1 + 0.2])
             dec.enabled, dec.tolerance, dec.frequency_tolerance = en, tol, ftol
             want[dec.name] = (en, tol, ftol)
         url = safe_url(rng)
